@@ -4369,7 +4369,21 @@ def _parse_simple_lines(
                 i += 1
                 continue
 
-        # unknown → ignore
+        # Unknown line.  Statements without a meaning on the device (imports,
+        # pass, global/nonlocal, docstrings) and fragments of a statement that
+        # spans several lines are skipped; any other complete statement is
+        # rejected instead of silently disappearing from the firmware.
+        try:
+            unknown_stmt = ast.parse(line).body
+        except SyntaxError:
+            unknown_stmt = None
+        if unknown_stmt:
+            first = unknown_stmt[0]
+            harmless = isinstance(
+                first, (ast.Import, ast.ImportFrom, ast.Pass, ast.Global, ast.Nonlocal)
+            ) or (isinstance(first, ast.Expr) and isinstance(first.value, ast.Constant))
+            if not harmless:
+                raise ValueError(f"unsupported statement: {line}")
         _verif_note_ignored(scope, depth, line, "unknown")
         i += 1
 
@@ -4390,9 +4404,29 @@ def _parse_program(src: str) -> Program:
 
     # Text that is not Python is rejected up front (SyntaxError) instead of
     # having its unparseable lines silently ignored by the line-based passes.
-    ast.parse(src)
+    tree = ast.parse(src)
 
     lines = src.splitlines()
+
+    # The statement parser works line by line.  Imports and docstrings that span
+    # several physical lines carry no meaning for the device and are blanked out;
+    # any other simple statement that spans several lines is rejected (it would
+    # otherwise be skipped fragment by fragment without a diagnostic).
+    for stmt in ast.walk(tree):
+        if not isinstance(stmt, ast.stmt) or hasattr(stmt, "body"):
+            continue
+        end_lineno = getattr(stmt, "end_lineno", None) or stmt.lineno
+        if end_lineno == stmt.lineno:
+            continue
+        meaningless = isinstance(stmt, (ast.Import, ast.ImportFrom)) or (
+            isinstance(stmt, ast.Expr) and isinstance(stmt.value, ast.Constant)
+        )
+        if not meaningless:
+            raise ValueError(
+                f"line {stmt.lineno}: statements that span several lines are not supported"
+            )
+        for lineno in range(stmt.lineno, min(end_lineno, len(lines)) + 1):
+            lines[lineno - 1] = ""
     setup_body: List[object] = []
     loop_body: List[object]  = []
     ctx: Dict[str, Any] = {
